@@ -6,6 +6,8 @@
      maxp-enc n (13 values)|nil | maxp-dec xBYTES
      post-enc version italic16.16 ulpos ulthick fixed | post-dec xBYTES
      os2-enc <fields> | os2-dec xBYTES
+     derived glyf|cff (boxes) (widths) none|(4 codes...)|(12 codes...)
+     ver v
    Output: (ok ...) | err | panic | fuel
    Numbers may need 64 bits: they are converted digit by digit with the
    extracted Coq arithmetic, never through OCaml's int. *)
@@ -124,4 +126,15 @@ let () = main_loop (fun c ->
               os_nosub = sx_bool nosub; os_onlybm = sx_bool onlybm } in
     L [A "ok"; A (hex_of_bytes (m_os2_encode i))]
   | [A "os2-dec"; b] -> outcome (fun i -> L (A "ok" :: p_os2 i)) (m_os2_decode (sx_bytes b))
+  | [A "derived"; _kind; boxes; ws; cm] ->
+    let cm = (match cm with
+      | A "none" -> NoCmap
+      | L (A "4" :: c) -> Cmap4 (List.map bz c)
+      | L (A "12" :: c) -> Cmap12 (List.map bz c)
+      | _ -> failwith "bad cmap") in
+    outcome (fun d -> L [A "ok"; pz d.dv_numglyphs; p_rect d.dv_fontbbox; pz d.dv_advmax; pz d.dv_minlsb;
+                         pz d.dv_minrsb; pz d.dv_xmaxext; pn d.dv_numlong; pz d.dv_avg; pz d.dv_first; pz d.dv_last;
+                         pz d.dv_winascent; pz d.dv_windescent; pb d.dv_fixed])
+      (m_derived (List.map sx_rect (lst boxes)) (List.map bz (lst ws)) cm)
+  | [A "ver"; v] -> L [A "ok"; pn (m_version_round (bn v)); pn (version_milli_string (bn v))]
   | _ -> failwith "bad case")
